@@ -218,7 +218,8 @@ def _shape_labels(y, layout, m):
 def check_permutation(case):
     y = _shape_labels(_label_array(case), case.get("layout"), case.get("cols", 2))
     facts = dict(label_kind=case["label_kind"], n_classes=len(set(i for i in case["z"] if i is not None)))
-    t = _fct.PermutationReciprocalTransformer(random_state=case["random_state"])
+    closest = bool(case.get("closest")) and case["label_kind"] in ("int", "float") and not any(i is None for i in case["z"]) and y.ndim == 1
+    t = _fct.PermutationReciprocalTransformer(random_state=case["random_state"], closest=closest)
     np.random.seed(case["seed"])
     if case.get("first") is not None:
         # the same instance was fitted on other labels before and its reciprocal was already requested:
@@ -236,6 +237,17 @@ def check_permutation(case):
     facts["layout"] = case.get("layout") or "1d"
     require(len(perm) == len(distinct), "permutation:size", "%r for labels %r" % (perm, distinct), facts)
     require(sorted(int(v) for v in perm.values()) == list(range(len(distinct))), "permutation:not-a-bijection", "%r" % (perm,), facts)
+    if closest:
+        # closest=True: values never seen by fit are coded like the nearest seen label; asking for them (noisy test targets looked at in
+        # the transformed space) is a read-only operation: the fitted permutation stays the bijection of the SEEN labels
+        extra = np.array([v + (0.25 if case["label_kind"] == "float" else 0) for v in case.get("unseen", [])], dtype=y.dtype)
+        extra = np.array([v for v in extra.tolist() if v not in perm], dtype=y.dtype)
+        if len(extra):
+            codes_u = np.asarray(t.transform(None, extra)[1])
+            require(set(int(c) for c in codes_u.tolist()) <= set(int(v) for v in perm.values()), "closest:code-not-of-a-seen-label", "%r" % codes_u.tolist(), facts)
+            require({k: int(v) for k, v in t.permutation_.items()} == {k: int(v) for k, v in perm.items()}, "closest:transform-changes-permutation",
+                    "permutation_ after transforming unseen values %r: %r, after fit: %r" % (extra.tolist(), dict(t.permutation_), perm), facts)
+        facts["closest"] = True
     X = np.arange(len(y), dtype=np.float64).reshape(-1, 1)
     X1, y1 = t.transform(X, y)
     require(_same_labels(y, y0), "input-modified", "", facts)
@@ -255,7 +267,7 @@ def check_permutation(case):
     identity = all(int(perm[u]) == first_seen[u] for u in distinct)
     return Outcome([case["label_kind"], "identity" if identity else "non-identity", "classes=%d" % len(distinct),
                     "has-nan" if any(i is None for i in case["z"]) else "no-nan", "refit" if case.get("first") else "first-fit",
-                    "layout=" + (case.get("layout") or "1d")], not identity)
+                    "layout=" + (case.get("layout") or "1d"), "closest" if closest else "exact"], not identity)
 
 
 @st.composite
@@ -284,7 +296,8 @@ def _perm_cases(draw, tier="quick", kinds=("int", "int32", "float", "str-object"
     if kind in ("int", "int32"):
         layout = draw(st.sampled_from(["1d", "1d-strided", "2d-C", "2d-F", "2d-T"]))
     return dict(label_kind=kind, pool=pool, z=z, random_state=draw(st.one_of(st.none(), st.integers(0, 200))), seed=draw(st.integers(0, 2**31 - 2)), first=first,
-                layout=layout, cols=draw(st.integers(2, 3)))
+                layout=layout, cols=draw(st.integers(2, 3)), closest=draw(st.integers(0, 2)) == 0,
+                unseen=[draw(st.integers(-15, 40)) for _ in range(draw(st.integers(1, 4)))])
 
 
 # ------------------------------------------------------------------------- regressor
